@@ -3,6 +3,7 @@ import XmppModel.Model.Close
 /-! Driver for C10 (see harness/c10 for the line protocol).
 
     hist <serve 0|1> <op,op,…>        -> <res,res,…> <wire items> <outClosed><inClosed> <serve result>
+    closeblock                            -> reads=<ok|blocked> tags=<n>   (Close waiting in its write)
     whist <failing write index|-> <op,…>  -> <res,…> <wire items> <outClosed> <closing-tag write attempts>
     sched <kind,kind,…> <i,i,…>       -> <wire events> <per goroutine outcome>
 
@@ -77,6 +78,13 @@ def handle (args : List String) : Option String :=
     let r := Hist.run (Hist.init sv) l
     let s := r.1
     pure s!"{joinList (r.2.map showRes)} {joinList (s.wire.map showItem)} {showBool s.outClosed}{showBool s.inClosed} {showRet s.serve}"
+  | ["closeblock"] =>
+    -- a closer driven into its (blocked) connection write, a reader next to it
+    let kind : Nat → RwLts.Kind := fun i => if i = 0 then .closer else .reader
+    let s := RwLts.run false kind RwLts.init [(0, false), (0, false), (0, false), (0, false)]
+    let reads := if (RwLts.step false kind false s 1).isSome then "ok" else "blocked"
+    let s' := RwLts.run false kind s [(1, false), (0, true)]
+    pure s!"reads={reads} tags={s'.tags}"
   | ["whist", failAt, ops] => do
     let f ← if failAt == "-" then some none else failAt.toNat?.map some
     let l ← mapM? parseWOp (splitList ops)
